@@ -1,0 +1,18 @@
+//go:build verif
+
+package jobcontroller
+
+import (
+	"k8s.io/client-go/util/workqueue"
+
+	execution "github.com/furiko-io/furiko/apis/execution/v1alpha1"
+)
+
+// VerifSetQueue injects a deterministic workqueue (verification harness in /verif).
+func (c *Context) VerifSetQueue(q workqueue.RateLimitingInterface) { c.queue = q }
+
+// VerifCanCreateTask exposes canCreateTask.
+func VerifCanCreateTask(rj *execution.Job) bool { return canCreateTask(rj) }
+
+// VerifShouldKillJob exposes shouldKillJob.
+func VerifShouldKillJob(rj *execution.Job) bool { return shouldKillJob(rj) }
